@@ -626,16 +626,23 @@ func runRegCase(c *regReplay) (msg string, labels map[string]bool, nontrivial bo
 	w := ecs.NewWorld(ecs.NewConfig().WithCapacityIncrement(c.Cap))
 	r := &regWorld{w: &w, labels: map[string]bool{}}
 	for k, op := range c.Ops {
-		if m := r.apply(op); m != "" {
+		var m string
+		if p := core.Call(func() { m = r.apply(op) }); p != nil {
+			return fmt.Sprintf("op %d %+v panicked: %v", k, op, p), r.labels, r.nontri
+		}
+		if m != "" {
 			return fmt.Sprintf("op %d %+v: %s", k, op, m), r.labels, r.nontri
 		}
-		if m := r.checkRegistry(); m != "" {
-			return fmt.Sprintf("after op %d %+v: %s", k, op, m), r.labels, r.nontri
+		if p := core.Call(func() {
+			if m = r.checkRegistry(); m == "" {
+				if m = r.checkResRegistry(k); m == "" {
+					m = r.checkEntities()
+				}
+			}
+		}); p != nil {
+			return fmt.Sprintf("after op %d %+v: reading the registries or the tracked entities panicked: %v", k, op, p), r.labels, r.nontri
 		}
-		if m := r.checkResRegistry(k); m != "" {
-			return fmt.Sprintf("after op %d %+v: %s", k, op, m), r.labels, r.nontri
-		}
-		if m := r.checkEntities(); m != "" {
+		if m != "" {
 			return fmt.Sprintf("after op %d %+v: %s", k, op, m), r.labels, r.nontri
 		}
 		if err := core.CheckInvariants(r.w); err != nil {
